@@ -36,7 +36,11 @@ type c15Req struct {
 	Err      string `json:"script_err,omitempty"`
 	Hold     bool   `json:"hold,omitempty"`
 	Panic    bool   `json:"panic,omitempty"`
+	Retry    bool   `json:"retried_after_failure,omitempty"`
+	RetryStatus int `json:"retry_status,omitempty"`
 	id       uint32
+	retryID  uint32
+	retryCh  chan *wire.Msg
 	sentSeq  int64
 	ch       chan *wire.Msg
 }
@@ -108,6 +112,14 @@ func c15Batch(r *vc.Run, stype int) {
 						q.Status = []int{5, 8}[rnd.Intn(2)] // a manager that fails while naming a success status
 					}
 				}
+				if q.Err != "" && rnd.Bool() {
+					// the coordinator retries a failed branch (new message id); the manager then succeeds
+					q.Retry = true
+					q.RetryStatus = 8
+					if q.Commit {
+						q.RetryStatus = 5
+					}
+				}
 				if rnd.Intn(9) == 0 {
 					q.Hold = true
 				}
@@ -160,7 +172,11 @@ func c15Stream(r *vc.Run, w *world.World, ch *vc.Child, stype, si int, reqs []*c
 	var entries []map[string]interface{}
 	for _, q := range reqs {
 		if q.Scripted {
-			entries = append(entries, map[string]interface{}{"branch_id": q.Branch, "status": q.Status, "err": q.Err, "hold": q.Hold, "panic": q.Panic})
+			e := map[string]interface{}{"branch_id": q.Branch, "status": q.Status, "err": q.Err, "hold": q.Hold, "panic": q.Panic}
+			if q.Retry {
+				e["then"] = map[string]interface{}{"status": q.RetryStatus}
+			}
+			entries = append(entries, e)
 		}
 	}
 	if err := ch.Call("rm_script", map[string]interface{}{"branch_type": stype, "entries": entries}, nil); err != nil {
@@ -191,7 +207,7 @@ func c15Stream(r *vc.Run, w *world.World, ch *vc.Child, stype, si int, reqs []*c
 	}
 	wg.Wait()
 	// wait for every response that must come without any hold being released
-	deadline := time.After(40 * time.Second)
+	deadline := time.Now().Add(40 * time.Second)
 	pendingBlocked := 0
 	for _, q := range reqs {
 		if q.ch == nil || !q.Scripted || q.Err != "" || q.Panic || q.Hold {
@@ -202,7 +218,7 @@ func c15Stream(r *vc.Run, w *world.World, ch *vc.Child, stype, si int, reqs []*c
 			if m != nil {
 				q.ch <- m
 			}
-		case <-deadline:
+		case <-time.After(time.Until(deadline)):
 			pendingBlocked++
 		}
 	}
@@ -214,7 +230,7 @@ func c15Stream(r *vc.Run, w *world.World, ch *vc.Child, stype, si int, reqs []*c
 		}
 	}
 	ch.Call("rm_release", map[string]interface{}{"branch_type": stype, "branches": held}, nil)
-	deadline2 := time.After(30 * time.Second)
+	deadline2 := time.Now().Add(30 * time.Second)
 	for _, q := range reqs {
 		if q.ch == nil || !q.Scripted || q.Err != "" || q.Panic {
 			continue
@@ -224,7 +240,34 @@ func c15Stream(r *vc.Run, w *world.World, ch *vc.Child, stype, si int, reqs []*c
 			if m != nil {
 				q.ch <- m
 			}
-		case <-deadline2:
+		case <-time.After(time.Until(deadline2)):
+		}
+	}
+	// retries of branches whose first attempt failed: same xid / branch, new message id, the manager now succeeds
+	for _, q := range reqs {
+		if !q.Retry || q.ch == nil || q.Panic {
+			continue
+		}
+		t := int16(wire.TBranchRollback)
+		if q.Commit {
+			t = wire.TBranchCommit
+		}
+		m := wire.New(t, "xid", q.Xid, "branchId", q.Branch, "branchType", q.Type, "resourceId", q.Resource, "applicationData", q.AppData)
+		if id, c, err := w.TC.Request(s, m, 0); err == nil {
+			q.retryID, q.retryCh = id, c
+		}
+	}
+	deadline3 := time.Now().Add(30 * time.Second)
+	for _, q := range reqs {
+		if q.retryCh == nil {
+			continue
+		}
+		select {
+		case m := <-q.retryCh:
+			if m != nil {
+				q.retryCh <- m
+			}
+		case <-time.After(time.Until(deadline3)):
 		}
 	}
 	time.Sleep(400 * time.Millisecond) // settle: lets duplicate / unexpected extra responses show up in the log
@@ -241,6 +284,14 @@ func c15Stream(r *vc.Run, w *world.World, ch *vc.Child, stype, si int, reqs []*c
 			resp[e.ID] = append(resp[e.ID], e)
 		}
 	}
+	// the manager's record is cumulative over the batch: keep this stream's calls
+	var mine []c15Call
+	for _, c := range calls {
+		if c.Seq > startSeq {
+			mine = append(mine, c)
+		}
+	}
+	calls = mine
 	callsBy := map[int64][]c15Call{}
 	for _, c := range calls {
 		callsBy[c.BranchID] = append(callsBy[c.BranchID], c)
@@ -300,15 +351,28 @@ func c15Stream(r *vc.Run, w *world.World, ch *vc.Child, stype, si int, reqs []*c
 			}
 		}
 		if !q.Scripted {
-			// no call of this request may have reached the scripted manager (routing by branch type)
+			if q.Type == 9 && len(rs) > 0 {
+				viol("misrouted", fmt.Sprintf("a request of a branch type no manager is registered for was answered (%s): some other type's manager must have handled it", rs[0].Text))
+			}
 			continue
+		}
+		if q.retryCh != nil {
+			rr := resp[q.retryID]
+			ncalls := len(callsBy[q.Branch])
+			if ncalls != 2 {
+				viol("retry-not-routed", fmt.Sprintf("the retry (message id %d) of a branch whose first attempt failed: manager saw %d call(s) for the branch, expected 2", q.retryID, ncalls))
+			} else if len(rr) != 1 {
+				viol("retry-unanswered", fmt.Sprintf("the retry (message id %d) was handled successfully by the manager but got %d responses", q.retryID, len(rr)))
+			} else if rr[0].Msg == nil || rr[0].Msg.I("branchStatus") != int64(q.RetryStatus) || rr[0].Msg.S("xid") != q.Xid || rr[0].Msg.I("branchId") != q.Branch {
+				viol("retry-wrong-response", fmt.Sprintf("the retry's response is %s, expected status %d for this xid/branch", rr[0].Text, q.RetryStatus))
+			}
 		}
 		cs := callsBy[q.Branch]
 		if len(cs) == 0 {
 			viol("misrouted", fmt.Sprintf("request of branch type %s never reached the manager registered for that type", c15TypeName[q.Type]))
 			continue
 		}
-		if len(cs) > 1 {
+		if len(cs) > 1 && q.retryCh == nil {
 			viol("duplicate-call", fmt.Sprintf("manager invoked %d times for one request", len(cs)))
 		}
 		c := cs[0]
@@ -343,7 +407,7 @@ func c15Stream(r *vc.Run, w *world.World, ch *vc.Child, stype, si int, reqs []*c
 	}
 	var strays []c15Call
 	for _, c := range calls {
-		if !c.Scripted && c.BranchID >= 9000000 {
+		if !known[c.BranchID] {
 			strays = append(strays, c)
 		}
 	}
